@@ -71,3 +71,23 @@ MANIFEST_TEXT["C02"] = dict(
     text="Every judged case carries an optimality certificate obtained independently of VPSC (KKT conditions verified in long double, or exhaustive active-set enumeration), so a disagreement beyond 1e-5*scale is a proven sub-optimal answer, not a heuristic suspicion. Held on the executions observed (30k+ random, all tiny instances, permutations, live re-solves); two recorded defects (F3, F14) are matched by signature.",
     note="Trusts the oracle's certificate arithmetic (long double Gaussian elimination, tolerance 1e-11*scale); cases the oracle cannot certify are inconclusive; F3/F14 signatures are evaluated by the harness (F14 via the libvpsc hook counter).",
 )
+
+CHECKS["C17"] = dict(
+    level="exploration",
+    rule=("cases = weighted undirected multigraphs (generators simple/parallel-edges/self-loops/zero-weights/disconnected/unit-empty-array/dense, n 1..300); "
+          "dijkstra (several sources), johnsons, floyd_warshall (n<=120) and ConstrainedFDLayout::readLinearD/G (n<=60, incl. non-positive eLengths) "
+          "compared with a Bellman-Ford + union-find oracle. non-trivial = some pair's shortest path is shorter than any direct edge between the pair (multi-hop)"),
+    workloads=[
+        dict(harness="c17_paths", mode="graphs", quick=20000, thorough=1000000, watchdog=60, san_thorough=20000),
+        dict(harness="c17_paths", mode="regress", quick=1, thorough=1, fixed=True, watchdog=30),
+    ],
+    min_nontrivial=dict(quick=3000, thorough=30000),
+    max_inconclusive=0.01,
+    require_obs=["dijkstra_runs", "allpairs_runs", "layout_matrices", "graphs_with_unreachable_pairs"],
+    assumptions=["relative tolerance 1e-9; G's diagonal is not judged (the property speaks of pairs)"],
+)
+MANIFEST_TEXT["C17"] = dict(
+    technique="runtime monitor: Bellman-Ford + union-find reference model compared with all three algorithms and the layout's D/G matrices on generated multigraphs",
+    text="Every generated graph is solved by the three library algorithms and by an independent Bellman-Ford; all n^2 entries (and the unreachable sentinel, symmetry, diagonal) are compared. Held on the executions observed; exploration by generator diversity (parallel edges, self-loops, zero weights, disconnected, empty-weights convention).",
+    note="Trusts the harness' Bellman-Ford (self-checked against union-find components on every case).",
+)
